@@ -1,4 +1,5 @@
-// K-BG4 harnesses (BOUNDED).  Pasted into `mod kani_harness` inside the generated `bg4` module.
+// K-BG4 harnesses (BOUNDED: lengths are enumerated, byte values are symbolic).
+// Pasted into `mod kani_harness` inside the generated `bg4` module.
 
 /// offset of group k inside the "together" layout for total length n
 fn group_off(n: usize, k: usize) -> usize {
@@ -11,85 +12,202 @@ fn group_off(n: usize, k: usize) -> usize {
     off
 }
 
+/// all byte strings of length N: split / regroup round trip, lengths, layout
 fn roundtrip<const N: usize>() {
     let buf: [u8; N] = kani::any();
-    let n: usize = kani::any();
-    kani::assume(n <= N);
-    let x = &buf[..n];
+    let x = &buf[..];
 
     let s = bg4_split_together(x);
-    assert!(s.len() == n, "|split(x)| == |x|");
-    let same_entry = bg4_split(x);
-    assert!(same_entry.len() == n, "|bg4_split(x)| == |x|");
+    assert!(s.len() == N, "|split(x)| == |x|");
+    let s2 = bg4_split(x);
+    assert!(s2.len() == N, "|bg4_split(x)| == |x|");
 
     let r = bg4_regroup_together(&s);
-    assert!(r.len() == n, "|regroup(split(x))| == |x|");
-    let r2 = bg4_regroup(&s);
-    assert!(r2.len() == n, "|bg4_regroup(split(x))| == |x|");
+    assert!(r.len() == N, "|regroup(split(x))| == |x|");
+    let r2 = bg4_regroup(&s2);
+    assert!(r2.len() == N, "|bg4_regroup(bg4_split(x))| == |x|");
 
-    // one nondeterministic position stands for all positions
-    let j: usize = kani::any();
-    kani::assume(j < n);
-    assert!(r[j] == x[j], "regroup(split(x))[j] == x[j]");
-    assert!(r2[j] == x[j], "bg4_regroup(bg4_split(x))[j] == x[j]");
-    assert!(s[group_off(n, j % 4) + j / 4] == x[j], "split layout: byte j of x is byte j/4 of group j%4");
-    assert!(same_entry[j] == s[j], "bg4_split is bg4_split_together");
-
-    kani::cover!(n == N && j == N - 1, "longest input, last byte");
-    kani::cover!(n % 4 == 1 && n > 4, "residue 1 with at least one full group");
-    kani::cover!(n % 4 == 2 && n > 4, "residue 2");
-    kani::cover!(n % 4 == 3 && n > 4, "residue 3");
-    kani::cover!(n % 4 == 0 && n > 4, "residue 0");
-    kani::cover!(n == 0, "empty input");
+    if N > 0 {
+        // one nondeterministic position stands for all positions
+        let j: usize = kani::any();
+        kani::assume(j < N);
+        assert!(r[j] == x[j], "regroup(split(x))[j] == x[j]");
+        assert!(r2[j] == x[j], "bg4_regroup(bg4_split(x))[j] == x[j]");
+        assert!(s[group_off(N, j % 4) + j / 4] == x[j], "split layout: byte j of x is byte j/4 of group j%4");
+        assert!(s2[j] == s[j], "bg4_split is bg4_split_together");
+    }
 }
 
-#[kani::proof]
-fn bg4_roundtrip_le23() {
-    roundtrip::<23>();
-}
-
-#[kani::proof]
-fn bg4_roundtrip_le47() {
-    roundtrip::<47>();
-}
-
-#[kani::proof]
-fn bg4_regroup_any_input_le23() {
-    const N: usize = 23;
+/// all byte strings g of length N as *decoder input*
+fn regroup_any<const N: usize>() {
     let buf: [u8; N] = kani::any();
-    let n: usize = kani::any();
-    kani::assume(n <= N);
-    let g = &buf[..n];
+    let g = &buf[..];
     let d = bg4_regroup_together(g);
-    assert!(d.len() == n, "|regroup(g)| == |g|");
+    assert!(d.len() == N, "|regroup(g)| == |g|");
     let back = bg4_split_together(&d);
-    assert!(back.len() == n, "|split(regroup(g))| == |g|");
-    let j: usize = kani::any();
-    kani::assume(j < n);
-    assert!(d[j] == g[group_off(n, j % 4) + j / 4], "regroup layout: output byte j comes from byte j/4 of group j%4");
-    assert!(back[j] == g[j], "split(regroup(g))[j] == g[j]");
-    kani::cover!(n == N && j == N - 1, "longest input, last byte");
-    kani::cover!(n % 4 == 2 && n > 8, "residue 2, two full rounds");
-    kani::cover!(n == 1, "single byte");
+    assert!(back.len() == N, "|split(regroup(g))| == |g|");
+    if N > 0 {
+        let j: usize = kani::any();
+        kani::assume(j < N);
+        assert!(d[j] == g[group_off(N, j % 4) + j / 4], "regroup layout: output byte j is byte j/4 of group j%4");
+        assert!(back[j] == g[j], "split(regroup(g))[j] == g[j]");
+    }
 }
 
-#[kani::proof]
-fn bg4_variants_agree_le23() {
-    const N: usize = 23;
+fn variants<const N: usize>() {
     let buf: [u8; N] = kani::any();
-    let n: usize = kani::any();
-    kani::assume(n <= N);
-    let x = &buf[..n];
+    let x = &buf[..];
     let s = bg4_split_together(x);
     let a = bg4_regroup_together(&s);
     let b = bg4_regroup_together_combined_write_4(&s);
     let c = bg4_regroup_together_combined_write_8(&s);
-    assert!(b.len() == n && c.len() == n, "variants return |x| bytes");
-    let j: usize = kani::any();
-    kani::assume(j < n);
-    assert!(a[j] == b[j], "combined_write_4 agrees with regroup_together");
-    assert!(a[j] == c[j], "combined_write_8 agrees with regroup_together");
-    assert!(a[j] == x[j], "and both equal x");
-    kani::cover!(n == N, "longest input");
-    kani::cover!(n / 4 % 2 == 1 && n > 8, "odd number of full groups (tail branch of the 8-byte variant)");
+    let sep = bg4_split_separate(x);
+    let d = bg4_regroup_separate(&sep);
+    assert!(b.len() == N && c.len() == N && d.len() == N, "variants return |x| bytes");
+    assert!(sep[0].len() + sep[1].len() + sep[2].len() + sep[3].len() == N, "separate groups have |x| bytes in total");
+    if N > 0 {
+        let j: usize = kani::any();
+        kani::assume(j < N);
+        assert!(a[j] == b[j], "combined_write_4 agrees with regroup_together");
+        assert!(a[j] == c[j], "combined_write_8 agrees with regroup_together");
+        assert!(a[j] == d[j], "regroup_separate(split_separate(x)) agrees");
+        assert!(sep[j % 4][j / 4] == x[j], "split_separate layout");
+    }
+}
+
+#[kani::proof]
+fn bg4_roundtrip_len_00_07() {
+    roundtrip::<0>();
+    roundtrip::<1>();
+    roundtrip::<2>();
+    roundtrip::<3>();
+    roundtrip::<4>();
+    roundtrip::<5>();
+    roundtrip::<6>();
+    roundtrip::<7>();
+    kani::cover!(true, "end of harness reached after length 7");
+}
+
+#[kani::proof]
+fn bg4_roundtrip_len_08_15() {
+    roundtrip::<8>();
+    roundtrip::<9>();
+    roundtrip::<10>();
+    roundtrip::<11>();
+    roundtrip::<12>();
+    roundtrip::<13>();
+    roundtrip::<14>();
+    roundtrip::<15>();
+    kani::cover!(true, "end of harness reached after length 15");
+}
+
+#[kani::proof]
+fn bg4_roundtrip_len_16_23() {
+    roundtrip::<16>();
+    roundtrip::<17>();
+    roundtrip::<18>();
+    roundtrip::<19>();
+    roundtrip::<20>();
+    roundtrip::<21>();
+    roundtrip::<22>();
+    roundtrip::<23>();
+    kani::cover!(true, "end of harness reached after length 23");
+}
+
+#[kani::proof]
+fn bg4_regroup_any_len_00_07() {
+    regroup_any::<0>();
+    regroup_any::<1>();
+    regroup_any::<2>();
+    regroup_any::<3>();
+    regroup_any::<4>();
+    regroup_any::<5>();
+    regroup_any::<6>();
+    regroup_any::<7>();
+    kani::cover!(true, "end of harness reached after length 7");
+}
+
+#[kani::proof]
+fn bg4_regroup_any_len_08_15() {
+    regroup_any::<8>();
+    regroup_any::<9>();
+    regroup_any::<10>();
+    regroup_any::<11>();
+    regroup_any::<12>();
+    regroup_any::<13>();
+    regroup_any::<14>();
+    regroup_any::<15>();
+    kani::cover!(true, "end of harness reached after length 15");
+}
+
+#[kani::proof]
+fn bg4_regroup_any_len_16_23() {
+    regroup_any::<16>();
+    regroup_any::<17>();
+    regroup_any::<18>();
+    regroup_any::<19>();
+    regroup_any::<20>();
+    regroup_any::<21>();
+    regroup_any::<22>();
+    regroup_any::<23>();
+    kani::cover!(true, "end of harness reached after length 23");
+}
+
+// ---- thorough tier ----
+
+#[kani::proof]
+fn bg4_roundtrip_len_24_29() {
+    roundtrip::<24>();
+    roundtrip::<25>();
+    roundtrip::<26>();
+    roundtrip::<27>();
+    roundtrip::<28>();
+    roundtrip::<29>();
+    kani::cover!(true, "end of harness reached after length 29");
+}
+
+#[kani::proof]
+fn bg4_roundtrip_len_30_35() {
+    roundtrip::<30>();
+    roundtrip::<31>();
+    roundtrip::<32>();
+    roundtrip::<33>();
+    roundtrip::<34>();
+    roundtrip::<35>();
+    kani::cover!(true, "end of harness reached after length 35");
+}
+
+#[kani::proof]
+fn bg4_roundtrip_len_36_41() {
+    roundtrip::<36>();
+    roundtrip::<37>();
+    roundtrip::<38>();
+    roundtrip::<39>();
+    roundtrip::<40>();
+    roundtrip::<41>();
+    kani::cover!(true, "end of harness reached after length 41");
+}
+
+#[kani::proof]
+fn bg4_roundtrip_len_42_47() {
+    roundtrip::<42>();
+    roundtrip::<43>();
+    roundtrip::<44>();
+    roundtrip::<45>();
+    roundtrip::<46>();
+    roundtrip::<47>();
+    kani::cover!(true, "end of harness reached after length 47");
+}
+
+#[kani::proof]
+fn bg4_variants_agree_len_16_23() {
+    variants::<16>();
+    variants::<17>();
+    variants::<18>();
+    variants::<19>();
+    variants::<20>();
+    variants::<21>();
+    variants::<22>();
+    variants::<23>();
+    kani::cover!(true, "end of harness reached after length 23");
 }
